@@ -798,6 +798,9 @@ class Interp(object):
         if isinstance(it, SymRange):
             mode = self.loop_mode(fr, s)
             return mode.run_for(self, s, it, fr)
+        if hasattr(it, 'factory') and hasattr(it, 'elem'):
+            mode = self.loop_mode(fr, s)
+            return mode.run_list(self, s, it, fr)
         vals = self.iterate(it, s)
         broke = False
         for v in vals:
@@ -1038,6 +1041,14 @@ class Interp(object):
         return d
 
     def ex_ListComp(self, e, fr):
+        if len(e.generators) == 1 and not e.generators[0].ifs:
+            src = self.eval(e.generators[0].iter, fr)
+            if hasattr(src, 'factory') and hasattr(src, 'elem'):
+                from .induct import GList
+                var = self.newname('j').replace('!', '')
+                j = integer(var)
+                self.assign(e.generators[0].target, src.elem(j), fr)
+                return GList(self.eval(e.elt, fr), var, src.n)
         out = []
         self._comp(e.generators, 0, fr, lambda f2: out.append(self.eval(e.elt, f2)))
         return out
@@ -1281,7 +1292,14 @@ class Interp(object):
             return a * (1 / b.const_value()) if not isinstance(a, P) else a / b
         nz = Cond('cmp', '!=', b)
         if self.path is not None:
-            self.path.obligations.append(('nonzero-denominator', nz, list(self.path.conds), getattr(node, 'lineno', None)))
+            try:
+                txt = ast.unparse(node.right if isinstance(node, ast.BinOp) else node.value)
+            except Exception:
+                txt = '?'
+            self.path.obligations.append(('nonzero-denominator', nz, list(self.path.conds), getattr(node, 'lineno', None), txt,
+                                          self.trace_calls[-1] if self.trace_calls else '<module>'))
+            # the division was executed, so on the rest of this path the divisor is non-zero
+            self.path.conds.append(nz)
         a = a if isinstance(a, P) else (P.const(a) if not hasattr(a, '__truediv__') or isinstance(a, (int, Fraction)) else a)
         return a / b
 
@@ -1561,6 +1579,8 @@ def make_builtins(interp):
         return f
 
     def b_sum(it, start=0):
+        if hasattr(it, 'total') and hasattr(it, 'var'):
+            return start + it.total()
         tot = start
         for v in interp.iterate(it):
             tot = tot + v
